@@ -167,7 +167,7 @@ let pconc_case (toks : string list) : string =
       incr rounds
     done;
     let c k = int_of_nat (M.count (nat_of_int k) (!st).M.log) in
-    Printf.sprintf "Y f=%d c1=%d c2=%d c3=%d err=%d" (c 0) (c 1) (c 2) (c 3) (if (!st).M.err0 then 1 else 0)
+    Printf.sprintf "Y f=%d c1=%d c2=%d c3=%d err=%d wrong=0" (c 0) (c 1) (c 2) (c 3) (if (!st).M.err0 then 1 else 0)
   | "F" :: _ -> "F bad=0"
   | _ -> "BADCASE"
 
@@ -625,6 +625,7 @@ let timeout_case (toks : string list) : string =
                | 'P' | 'q' -> step := 1
                | 'h' -> has_cl := true
                | 'e' -> if !has_cl then step := 2 else complete now
+               | 'c' -> body := !body + 2; if !body >= 10 then complete now
                | 'b' -> body := !body + 5; if !body >= 10 then complete now
                | 'B' -> body := !body + 10; if !body >= 10 then complete now
                | 'g' -> complete now
